@@ -283,6 +283,7 @@ class Check:
                 self.coverage["other_properties_broken"] = "the Coq build failed in files this property does not depend on (%s); ignored here" % (failing or "see make log")
             else:
                 failing = "%s (not built: %s)" % (failing, ", ".join(stale))
+        self.hygiene()
         if ok:
             self.discharged = list(names)
             self.assumptions = print_assumptions(self.prop, [f for f in files if f.startswith("Properties")],
@@ -292,6 +293,31 @@ class Check:
             self.broken.append("coq build: %s" % (failing or "see log"))
             self.coq_log = log[-4000:]
         return ok
+
+    def hygiene(self):
+        """Source-level scan of the whole development: nothing may be assumed or switched off."""
+        import glob
+        bad = []
+        for f in sorted(glob.glob(os.path.join(COQ, "theories", "*.v")) + glob.glob(os.path.join(COQ, "gen", "*.v"))):
+            depth = 0
+            text = open(f, encoding="utf-8", errors="replace").read()
+            text = re.sub(r"\(\*.*?\*\)", lambda m: re.sub(r"[^\n]", " ", m.group(0)), text, flags=re.S)  # comments out
+            for i, l in enumerate(text.split("\n"), 1):
+                t = l.strip()
+                if re.match(r"^Section\s+\w+", t):
+                    depth += 1
+                elif re.match(r"^End\s+\w+\s*\.", t) and depth > 0:
+                    depth -= 1
+                if re.search(r"\b(Admitted|admit|Axiom|Axioms|Parameter|Parameters|Conjecture|Conjectures)\b", t) or \
+                   re.search(r"Unset\s+(Guard|Positivity|Universe)\s+Checking|bypass_check|Admit\s+Obligations", t) or \
+                   (depth == 0 and re.match(r"^(Variable|Variables|Hypothesis|Hypotheses|Context)\b", t)):
+                    bad.append("%s:%d: %s" % (os.path.basename(f), i, t[:80]))
+        proj = open(os.path.join(COQ, "_CoqProject")).read()
+        if re.search(r"type-in-type|impredicative-set", proj):
+            bad.append("_CoqProject passes a kernel-weakening flag")
+        self.coverage["hygiene"] = "no Admitted/admit/Axiom/Parameter/Conjecture, no check switched off, no Variable/Hypothesis outside a Section, in %d files" % len(glob.glob(os.path.join(COQ, "*", "*.v"))) if not bad else bad
+        if bad:
+            self.broken.append("development hygiene: " + "; ".join(bad[:5]))
 
     def coqchk(self, prop_files, timeout=2400):
         """Independent re-check of the compiled property modules and everything they depend on."""
